@@ -50,17 +50,30 @@ type dsTap struct {
 	suffixes []string // datastore key suffix of each key
 	lastQ    atomic.Int64
 	lastS    atomic.Int64
+	firstQ   atomic.Int64 // stamps of the first Query ever issued (the initial build's when nothing else enumerates before it)
+	firstS   atomic.Int64
+	first    chan struct{} // closed when the first Query was entered
+	once     sync.Once
 	mu       sync.Mutex
 	writes   []dsWrite
 }
 
 func newTap(clock *atomic.Int64, keys concKeys, fds *faultDS) *dsTap {
-	t := &dsTap{clock: clock}
+	t := &dsTap{clock: clock, first: make(chan struct{})}
 	for _, c := range keys.cids {
 		t.suffixes = append(t.suffixes, dshelp.MultihashToDsKey(c.Hash()).String())
 	}
-	fds.onQuery = func() { t.lastQ.Store(clock.Add(1)) }
-	fds.onSnapshot = func() { t.lastS.Store(clock.Add(1)) }
+	fds.onQuery = func() {
+		v := clock.Add(1)
+		t.lastQ.Store(v)
+		t.firstQ.CompareAndSwap(0, v)
+		t.once.Do(func() { close(t.first) })
+	}
+	fds.onSnapshot = func() {
+		v := clock.Add(1)
+		t.lastS.Store(v)
+		t.firstS.CompareAndSwap(0, v)
+	}
 	fds.onWrite = func(k ds.Key, del bool) func() {
 		ks := k.String()
 		idx := -1
@@ -202,7 +215,30 @@ func runConc(k *vlib.Case, mode concMode) {
 		s.ref.Put(ctx, mkBlock(d, forms[2].mk(d)))
 	}
 	inFlightStart := mode.bloom && r.Bool()
-	k.Logf("initially present: [%s], %d filler blocks, workers start while the initial build runs: %v", strings.Join(pre, " "), nfill, inFlightStart)
+	// Half of those runs also let the Rebuild loop start while the initial
+	// build is still inside its (then deliberately slow) enumeration.
+	rebuildEarly := inFlightStart && r.Bool()
+	if rebuildEarly {
+		delay.slowEnum = true
+		if delay.num < 8 {
+			delay.num = 8
+		}
+		for i := 0; i < 30; i++ {
+			d := r.Bytes(r.Range(1, 30))
+			s.ref.Put(ctx, mkBlock(d, forms[2].mk(d)))
+		}
+		nfill += 30
+	}
+	// Sentinels: stored before the cache exists, never written by anybody;
+	// one goroutine reads them for the whole run.
+	sent := mkKeys(r, r.Range(1, 2))
+	for _, b := range sent.blks {
+		if err := s.ref.Put(ctx, b); err != nil {
+			panic(err)
+		}
+	}
+	k.Logf("initially present: [%s], %d filler blocks, %d sentinel keys (pre-existing, never written, read throughout), workers start while the initial build runs: %v, Rebuild loop starts while the initial build enumerates: %v",
+		strings.Join(pre, " "), nfill, len(sent.cids), inFlightStart, rebuildEarly)
 
 	// per-worker plans
 	kinds := []string{"Put", "Put", "Put", "PutMany", "Delete", "Delete", "Delete", "Has", "Has", "Get", "GetSize", "View"}
@@ -237,7 +273,7 @@ func runConc(k *vlib.Case, mode concMode) {
 	var builds []ev
 	if s.status != nil && !inFlightStart {
 		err := s.status.Wait(ctx)
-		e := ev{client: -1, kind: "InitialBuild", call: buildCall, ret: clock.Add(1), q: tap.lastQ.Load(), s: tap.lastS.Load()}
+		e := ev{client: -1, kind: "InitialBuild", call: buildCall, ret: clock.Add(1), q: tap.firstQ.Load(), s: tap.firstS.Load()}
 		if err != nil {
 			e.err = err.Error()
 		}
@@ -257,18 +293,47 @@ func runConc(k *vlib.Case, mode concMode) {
 	}
 	var stop atomic.Bool
 	var bwg sync.WaitGroup
+	var bmu sync.Mutex
+	// sentinel reader
+	var sentBad []ev
+	var sentReads int64
+	bwg.Add(1)
+	go func() {
+		defer bwg.Done()
+		kindsOf := []string{"Has", "GetSize", "Get", "View"}
+		for i := 0; i < 3000 && !stop.Load(); i++ {
+			p := planned{kind: kindsOf[i%4], keys: []int{(i / 4) % len(sent.cids)}}
+			e := execOp(ctx, s.top, &clock, 100, p, sent)
+			sentReads++
+			if !e.present || e.err != "" {
+				sentBad = append(sentBad, e)
+			}
+			runtime.Gosched()
+		}
+	}()
 	if s.status != nil {
+		waitInitial := func() {
+			err := s.status.Wait(ctx)
+			e := ev{client: -1, kind: "InitialBuild", call: buildCall, ret: clock.Add(1), q: tap.firstQ.Load(), s: tap.firstS.Load()}
+			if err != nil {
+				e.err = err.Error()
+			}
+			bmu.Lock()
+			builds = append(builds, e)
+			bmu.Unlock()
+		}
+		if rebuildEarly {
+			bwg.Add(1)
+			go func() { defer bwg.Done(); waitInitial() }()
+		}
 		bwg.Add(1)
 		pauseSeed := r.Uint64()
 		go func() {
 			defer bwg.Done()
-			if inFlightStart {
-				err := s.status.Wait(ctx)
-				e := ev{client: -1, kind: "InitialBuild", call: buildCall, ret: clock.Add(1), q: tap.lastQ.Load(), s: tap.lastS.Load()}
-				if err != nil {
-					e.err = err.Error()
-				}
-				builds = append(builds, e)
+			if rebuildEarly {
+				<-tap.first // the initial build has issued its Query: it is enumerating now
+			} else if inFlightStart {
+				waitInitial()
 			}
 			for i := uint64(0); !stop.Load(); i++ {
 				h := mix(pauseSeed + i)
@@ -284,7 +349,9 @@ func runConc(k *vlib.Case, mode concMode) {
 				if err != nil {
 					e.err = err.Error()
 				}
+				bmu.Lock()
 				builds = append(builds, e)
+				bmu.Unlock()
 			}
 		}()
 	}
@@ -292,6 +359,28 @@ func runConc(k *vlib.Case, mode concMode) {
 	stop.Store(true)
 	bwg.Wait()
 	s.fds.onWrite = nil // the quiescent checks below are not part of the history
+	sort.Slice(builds, func(i, j int) bool { return builds[i].call < builds[j].call })
+	k.C.Count("sentinel_reads", sentReads)
+	if rebuildEarly {
+		k.C.Count("conc_runs_with_rebuild_during_initial_build", 1)
+	}
+	for i, e := range sentBad {
+		if i >= 3 {
+			break
+		}
+		if e.err != "" {
+			k.Fail("conc/wrong-value/"+e.kind+"/"+cfg.layers(), "operations succeed and return the stored block", "no error, stored bytes", e.String())
+			continue
+		}
+		var nb []ev
+		for _, b := range builds {
+			if b.ret >= e.call-40 && b.call <= e.ret {
+				nb = append(nb, b)
+			}
+		}
+		k.Fail("rt/preexisting-missing/"+cfg.layers(), "a key stored before the cache was constructed and never deleted is never reported missing",
+			"present", fmt.Sprintf("%s   (sentinel key, no write was ever issued on it; %d sentinel reads, %d reported it missing)\nfilter builds around the read:\n%s", e, sentReads, len(sentBad), dump(nb)))
+	}
 
 	var all []ev
 	for _, l := range logs {
